@@ -5,6 +5,9 @@
 import Chrono.Proofs.DeltaL
 import Chrono.Proofs.DeltaDivL
 import Chrono.Proofs.DeltaDisplayL
+import Chrono.Proofs.DeltaOpsL
+import Chrono.Proofs.DeltaCanonL
+import Chrono.Proofs.DeltaCanonUniqL
 
 namespace Chrono.Props.C06
 open Chrono Chrono.M Chrono.Spec Chrono.Proofs Chrono.Extracted
@@ -200,5 +203,309 @@ theorem sum_exact (xs : List Delta) (acc : Delta) (hacc : DInv acc) (hxs : ∀ x
 example : Delta.sum [⟨0, 1⟩, ⟨-1, 0⟩] Delta.MAX = .panic ∧
     Delta.sum [⟨-1, 0⟩, ⟨0, 1⟩] Delta.MAX = .ok ⟨9223372036854774, 807000001⟩ ∧
     sumNs [1, -1000000000] NS_MAX = none := by decide
+
+/-! ### Operators `+ - += -= * /`, unary `-`, panicking constructors (audit gap G1)
+
+The operator impls and the constructors `weeks … milliseconds` are `expect` wrappers of the checked
+forms (`Model/DeltaOps.lean`); the statements below are against the specification, not against the
+checked forms: the exact result, or a panic exactly when the exact result is out of range
+(division: exactly when the divisor is zero).  Unary `-` is `Delta.neg` (`neg_abs_exact`). -/
+
+/-- `a + b` and `a += b`: the exact sum, or a panic exactly when it is out of range -/
+theorem op_add_exact (a b : Delta) (ha : DInv a) (hb : DInv b) :
+    Delta.add a b = (if nsInRange (ns a + ns b) then .ok (ofNs (ns a + ns b)) else .panic) ∧
+    Delta.add_assign a b = (if nsInRange (ns a + ns b) then .ok (ofNs (ns a + ns b)) else .panic) :=
+  ⟨DeltaOps.op_add_exact' a b ha hb, DeltaOps.op_add_assign_exact' a b ha hb⟩
+
+/-- `a - b` and `a -= b`: the exact difference, or a panic exactly when it is out of range -/
+theorem op_sub_exact (a b : Delta) (ha : DInv a) (hb : DInv b) :
+    Delta.sub a b = (if nsInRange (ns a - ns b) then .ok (ofNs (ns a - ns b)) else .panic) ∧
+    Delta.sub_assign a b = (if nsInRange (ns a - ns b) then .ok (ofNs (ns a - ns b)) else .panic) :=
+  ⟨DeltaOps.op_sub_exact' a b ha hb, DeltaOps.op_sub_assign_exact' a b ha hb⟩
+
+/-- `a * k` for every `i32` k: the exact product, or a panic exactly when it is out of range -/
+theorem op_mul_exact (a : Delta) (k : Int) (ha : DInv a) (hk : -2147483648 ≤ k ∧ k ≤ 2147483647) :
+    Delta.mul a k = if nsInRange (ns a * k) then .ok (ofNs (ns a * k)) else .panic :=
+  DeltaOps.op_mul_exact' a k ha hk
+
+/-- `a / k`: a panic exactly when `k = 0` (for every pair, valid or not); otherwise a value in range
+less than two nanoseconds from the exact quotient -/
+theorem op_div_spec (a : Delta) (k : Int) (ha : DInv a) (hk : -2147483648 ≤ k ∧ k ≤ 2147483647) :
+    (k = 0 → Delta.div a k = .panic) ∧
+    (k ≠ 0 → ∃ r, Delta.div a k = .ok r ∧ DInv r ∧ (ns r * k - ns a).natAbs < 2 * k.natAbs) := by
+  refine ⟨fun h => by subst h; exact DeltaOps.op_div_zero' a, fun hk0 => ?_⟩
+  obtain ⟨r, h1, h2, h3⟩ := div_spec' a k ha hk hk0
+  exact ⟨r, DeltaOps.op_div_ok' a k r h1, h2, h3⟩
+
+/-- the operator is the checked form followed by `expect`: same value whenever the checked form
+yields one -/
+theorem op_div_checked (a : Delta) (k : Int) (r : Delta) (h : Delta.checked_div a k = .ok (some r)) :
+    Delta.div a k = .ok r := DeltaOps.op_div_ok' a k r h
+
+/-- the panicking constructors, all `i64` arguments: the exact value, or a panic exactly when
+`n · unit` is out of range -/
+theorem unit_panicking (n : Int) (hn : -9223372036854775808 ≤ n ∧ n ≤ 9223372036854775807) :
+    Delta.weeks n = (if nsInRange (n * 604800 * 1000000000)
+      then .ok (ofNs (n * 604800 * 1000000000)) else .panic) ∧
+    Delta.days n = (if nsInRange (n * 86400 * 1000000000)
+      then .ok (ofNs (n * 86400 * 1000000000)) else .panic) ∧
+    Delta.hours n = (if nsInRange (n * 3600 * 1000000000)
+      then .ok (ofNs (n * 3600 * 1000000000)) else .panic) ∧
+    Delta.minutes n = (if nsInRange (n * 60 * 1000000000)
+      then .ok (ofNs (n * 60 * 1000000000)) else .panic) ∧
+    Delta.seconds n = (if nsInRange (n * 1000000000) then .ok (ofNs (n * 1000000000)) else .panic) ∧
+    Delta.milliseconds n = (if nsInRange (n * 1000000) then .ok (ofNs (n * 1000000)) else .panic) := by
+  refine ⟨?_, ?_, ?_, ?_, DeltaOps.seconds_exact' n, DeltaOps.milliseconds_exact' n hn⟩
+  · rw [DeltaOps.weeks_eq]; exact DeltaOps.unit_panicking_aux 604800 n (by omega) hn
+  · rw [DeltaOps.days_eq]; exact DeltaOps.unit_panicking_aux 86400 n (by omega) hn
+  · rw [DeltaOps.hours_eq]; exact DeltaOps.unit_panicking_aux 3600 n (by omega) hn
+  · rw [DeltaOps.minutes_eq]; exact DeltaOps.unit_panicking_aux 60 n (by omega) hn
+
+/-- `Sum` really is the fold of the operator `+` (the model of `Sum` inlines it) -/
+theorem sum_is_fold_of_op_add (x : Delta) (xs : List Delta) (acc : Delta) :
+    Delta.sum [] acc = .ok acc ∧
+    Delta.sum (x :: xs) acc = (Delta.add acc x >>= fun r => Delta.sum xs r) := by
+  refine ⟨rfl, ?_⟩
+  unfold Delta.add
+  rw [Delta.sum]
+  cases h : Delta.checked_add acc x with
+  | panic => rfl
+  | ok o => cases o <;> rfl
+
+/-- non-vacuity: the operators at the top of the range, the constructors at their thresholds
+(`i64::MAX` ms is `MAX`, `-i64::MAX` ms is `MIN`, `i64::MIN` ms panics) -/
+example :
+    Delta.add Delta.MAX ⟨0, 1⟩ = .panic ∧ Delta.sub Delta.MIN ⟨0, 1⟩ = .panic ∧
+    Delta.add Delta.MAX ⟨-1, 999999999⟩ = .ok ⟨9223372036854775, 806999999⟩ ∧
+    Delta.add_assign Delta.MIN Delta.MAX = .ok ⟨0, 0⟩ ∧ Delta.sub_assign Delta.MIN Delta.MAX = .panic ∧
+    Delta.mul Delta.MAX 2 = .panic ∧ Delta.mul Delta.MAX (-1) = .ok Delta.MIN ∧
+    Delta.div Delta.MAX 0 = .panic ∧ Delta.div Delta.MIN (-2147483648) = .ok ⟨4294967, 296000000⟩ ∧
+    Delta.milliseconds 9223372036854775807 = .ok Delta.MAX ∧
+    Delta.milliseconds (-9223372036854775807) = .ok Delta.MIN ∧
+    Delta.milliseconds (-9223372036854775808) = .panic ∧
+    Delta.seconds 9223372036854775 = .ok ⟨9223372036854775, 0⟩ ∧ Delta.seconds 9223372036854776 = .panic ∧
+    Delta.weeks 15250284452 = .ok ⟨9223372036569600, 0⟩ ∧ Delta.weeks 15250284453 = .panic ∧
+    Delta.weeks (-15250284453) = .panic ∧ Delta.days 9223372036854775807 = .panic := by decide
+
+/-! ### Closure of the range (audit gap G2) -/
+
+/-- the range is symmetric: that is why negation and `abs` are total -/
+theorem range_symm (n : Int) : nsInRange n ↔ nsInRange (-n) := DeltaOps.range_symm' n
+
+/-- no operation on valid values yields a value outside the range or with an invalid nanosecond
+field: every value returned by a checked operation, an operator, negation, `abs` or `Sum` satisfies the
+invariant -/
+theorem closed (a b : Delta) (k : Int) (ha : DInv a) (hb : DInv b)
+    (hk : -2147483648 ≤ k ∧ k ≤ 2147483647) :
+    (∀ r, Delta.checked_add a b = .ok (some r) → DInv r) ∧
+    (∀ r, Delta.checked_sub a b = .ok (some r) → DInv r) ∧
+    (∀ r, Delta.checked_mul a k = .ok (some r) → DInv r) ∧
+    (∀ r, Delta.checked_div a k = .ok (some r) → DInv r) ∧
+    (∀ r, Delta.neg a = .ok r → DInv r) ∧ (∀ r, Delta.abs a = .ok r → DInv r) ∧
+    (∀ r, Delta.add a b = .ok r → DInv r) ∧ (∀ r, Delta.sub a b = .ok r → DInv r) ∧
+    (∀ r, Delta.add_assign a b = .ok r → DInv r) ∧ (∀ r, Delta.sub_assign a b = .ok r → DInv r) ∧
+    (∀ r, Delta.mul a k = .ok r → DInv r) ∧ (∀ r, Delta.div a k = .ok r → DInv r) := by
+  refine ⟨fun r h => ?_, fun r h => ?_, fun r h => ?_, fun r h => DeltaOps.div_inv a k r ha hk h,
+    fun r h => (DeltaOps.neg_inv a r ha h).1, fun r h => (DeltaOps.abs_inv a r ha h).1,
+    fun r h => ?_, fun r h => ?_, fun r h => ?_, fun r h => ?_, fun r h => ?_,
+    fun r h => DeltaOps.op_div_inv a k r ha hk h⟩
+  · rw [add_exact' a b ha hb] at h; exact (DeltaOps.ok_some_ite_inv _ r h).1
+  · rw [sub_exact' a b ha hb] at h; exact (DeltaOps.ok_some_ite_inv _ r h).1
+  · rw [mul_exact' a k ha hk] at h; exact (DeltaOps.ok_some_ite_inv _ r h).1
+  · rw [DeltaOps.op_add_exact' a b ha hb] at h; exact (DeltaOps.ok_ite_inv _ r h).1
+  · rw [DeltaOps.op_sub_exact' a b ha hb] at h; exact (DeltaOps.ok_ite_inv _ r h).1
+  · rw [DeltaOps.op_add_assign_exact' a b ha hb] at h; exact (DeltaOps.ok_ite_inv _ r h).1
+  · rw [DeltaOps.op_sub_assign_exact' a b ha hb] at h; exact (DeltaOps.ok_ite_inv _ r h).1
+  · rw [DeltaOps.op_mul_exact' a k ha hk] at h; exact (DeltaOps.ok_ite_inv _ r h).1
+
+/-- `Sum` of valid values from a valid accumulator, when it returns, returns a valid value -/
+theorem closed_sum (xs : List Delta) (acc : Delta) (hacc : DInv acc) (hxs : ∀ x ∈ xs, DInv x) :
+    ∀ r, Delta.sum xs acc = .ok r → DInv r :=
+  fun r h => DeltaOps.sum_inv xs acc hacc hxs r h
+
+/-- every constructor, for all arguments of its machine types (`new`: any `u32` nanos; `from_std`:
+any `u64` seconds, nanos below 10⁹), returns only valid values -/
+theorem closed_constructors (secs nanos n : Int) (hnanos : 0 ≤ nanos)
+    (hn : -9223372036854775808 ≤ n ∧ n ≤ 9223372036854775807) :
+    (∀ r, Delta.new secs nanos = some r → DInv r) ∧
+    (∀ r, Delta.try_weeks n = some r → DInv r) ∧ (∀ r, Delta.try_days n = some r → DInv r) ∧
+    (∀ r, Delta.try_hours n = some r → DInv r) ∧ (∀ r, Delta.try_minutes n = some r → DInv r) ∧
+    (∀ r, Delta.try_seconds n = some r → DInv r) ∧ (∀ r, Delta.try_milliseconds n = some r → DInv r) ∧
+    DInv (Delta.microseconds n) ∧ DInv (Delta.nanoseconds n) ∧
+    (∀ r, Delta.weeks n = .ok r → DInv r) ∧ (∀ r, Delta.days n = .ok r → DInv r) ∧
+    (∀ r, Delta.hours n = .ok r → DInv r) ∧ (∀ r, Delta.minutes n = .ok r → DInv r) ∧
+    (∀ r, Delta.seconds n = .ok r → DInv r) ∧ (∀ r, Delta.milliseconds n = .ok r → DInv r) ∧
+    (0 ≤ secs ∧ secs ≤ 18446744073709551615 → nanos < 1000000000 →
+      ∀ r, Delta.from_std secs nanos = some r → DInv r) := by
+  obtain ⟨w, d, h, m, s, ms⟩ := unit_panicking n hn
+  have tu : ∀ u, (u = 1 ∨ u = 60 ∨ u = 3600 ∨ u = 86400 ∨ u = 604800) →
+      ∀ r, Delta.try_unit u n = some r → DInv r := by
+    intro u hu r hr
+    rw [try_unit_exact' u n hu hn] at hr
+    exact (DeltaOps.some_ite_inv _ r hr).1
+  refine ⟨fun r hr => (DeltaOps.new_inv secs nanos hnanos r hr).1,
+    tu 604800 (by omega), tu 86400 (by omega), tu 3600 (by omega), tu 60 (by omega), ?_, ?_,
+    (micro_nano_exact' n hn).2.1, (micro_nano_exact' n hn).2.2.2, ?_, ?_, ?_, ?_, ?_, ?_, ?_⟩
+  · intro r hr; rw [try_seconds_exact n] at hr; exact (DeltaOps.some_ite_inv _ r hr).1
+  · intro r hr; rw [try_milliseconds_exact' n hn] at hr; exact (DeltaOps.some_ite_inv _ r hr).1
+  · intro r hr; rw [w] at hr; exact (DeltaOps.ok_ite_inv _ r hr).1
+  · intro r hr; rw [d] at hr; exact (DeltaOps.ok_ite_inv _ r hr).1
+  · intro r hr; rw [h] at hr; exact (DeltaOps.ok_ite_inv _ r hr).1
+  · intro r hr; rw [m] at hr; exact (DeltaOps.ok_ite_inv _ r hr).1
+  · intro r hr; rw [s] at hr; exact (DeltaOps.ok_ite_inv _ r hr).1
+  · intro r hr; rw [ms] at hr; exact (DeltaOps.ok_ite_inv _ r hr).1
+  · intro hs hn9 r hr; exact (DeltaOps.from_std_inv secs nanos hs ⟨hnanos, hn9⟩ r hr).1
+
+/-- non-vacuity: each antecedent of `closed` is met (results at both range ends) -/
+example : Delta.checked_add Delta.MIN ⟨0, 1⟩ = .ok (some ⟨-9223372036854776, 193000001⟩) ∧
+    Delta.neg Delta.MIN = .ok Delta.MAX ∧ Delta.abs Delta.MIN = .ok Delta.MAX ∧
+    Delta.from_std 9223372036854775 807000000 = some Delta.MAX ∧
+    Delta.from_std 9223372036854775 807000001 = none ∧ nsInRange (-NS_MAX) := by decide
+
+/-! ### `is_zero`, constants, derived `PartialEq` / `PartialOrd` (audit gap G3 and the constants) -/
+
+/-- `is_zero` holds exactly for the zero count, i.e. exactly for `TimeDelta::zero()` -/
+theorem is_zero_spec (a : Delta) (ha : DInv a) :
+    (a.is_zero = true ↔ ns a = 0) ∧ (a.is_zero = true ↔ a = Delta.zero) :=
+  DeltaOps.is_zero_spec' a ha
+
+/-- `zero()` is the zero count, `min_value()` / `max_value()` are `MIN` / `MAX`, and those are the
+canonical representations of the range ends; every valid value lies between them, also in the
+derived order -/
+theorem consts_spec :
+    Delta.zero = ofNs 0 ∧ DInv Delta.zero ∧ Delta.min_value = Delta.MIN ∧ Delta.max_value = Delta.MAX ∧
+    Delta.MIN = ofNs (-NS_MAX) ∧ Delta.MAX = ofNs NS_MAX ∧
+    ∀ a, DInv a → ns Delta.MIN ≤ ns a ∧ ns a ≤ ns Delta.MAX ∧
+      Delta.cmp Delta.MIN a ≠ 1 ∧ Delta.cmp a Delta.MAX ≠ 1 := by
+  refine ⟨by decide, by decide, rfl, rfl, by decide, by decide, fun a ha => ?_⟩
+  have h1 : ns Delta.MIN = -9223372036854775807000000 := by decide
+  have h2 : ns Delta.MAX = 9223372036854775807000000 := by decide
+  have hr := ha.2.2
+  simp only [nsInRange, NS_MAX] at hr
+  rw [cmp_spec' Delta.MIN a (by decide) ha, cmp_spec' a Delta.MAX ha (by decide), h1, h2]
+  refine ⟨by omega, by omega, ?_, ?_⟩ <;> repeat' split <;> omega
+
+/-- derived `==`, `partial_cmp`, `<`, `<=`, `>`, `>=` on all pairs of valid values are the numeric
+relations on the nanosecond counts -/
+theorem rel_spec (a b : Delta) (ha : DInv a) (hb : DInv b) :
+    Delta.eq a b = decide (ns a = ns b) ∧
+    Delta.partial_cmp a b = some (if ns a < ns b then -1 else if ns a > ns b then 1 else 0) ∧
+    Delta.lt a b = decide (ns a < ns b) ∧ Delta.le a b = decide (ns a ≤ ns b) ∧
+    Delta.gt a b = decide (ns a > ns b) ∧ Delta.ge a b = decide (ns a ≥ ns b) :=
+  DeltaOps.rel_spec' a b ha hb
+
+/-- std conversions compose to the identity wherever they are defined -/
+theorem std_roundtrip (secs nanos : Int) (hs : 0 ≤ secs ∧ secs ≤ 18446744073709551615)
+    (hn : 0 ≤ nanos ∧ nanos < 1000000000) (a : Delta) (ha : DInv a) :
+    (∀ r, Delta.from_std secs nanos = some r → Delta.to_std r = some (secs, nanos)) ∧
+    (∀ p, Delta.to_std a = some p → Delta.from_std p.1 p.2 = some a) := by
+  constructor
+  · intro r hr
+    obtain ⟨hi, hv⟩ := DeltaOps.from_std_inv secs nanos hs hn r hr
+    have hr' := hr
+    rw [(std_spec' secs nanos hs hn r hi).1] at hr'
+    by_cases hc : nsInRange (secs * 1000000000 + nanos)
+    · rw [ite_pos' _ _ hc] at hr'
+      cases hr'
+      rw [(std_spec' secs nanos hs hn _ hi).2, ite_pos' _ _ (by simp only [ns]; omega)]
+    · rw [ite_neg' _ _ hc] at hr'; cases hr'
+  · intro p hp
+    rw [(std_spec' 0 0 (by omega) (by omega) a ha).2] at hp
+    by_cases hc : 0 ≤ ns a
+    · rw [ite_pos' _ _ hc] at hp
+      cases hp
+      have hr := ha.2.2
+      have hs' : 0 ≤ a.secs := by have := ha.2.1; simp only [ns] at hc; omega
+      simp only [nsInRange, NS_MAX, ns] at hr
+      have hn0 := ha.1
+      have hn1 := ha.2.1
+      rw [(std_spec' a.secs a.nanos ⟨hs', by omega⟩ ⟨ha.1, ha.2.1⟩ a ha).1,
+        ite_pos' _ _ (by simp only [nsInRange, NS_MAX]; omega)]
+    · rw [ite_neg' _ _ hc] at hp; cases hp
+
+/-- non-vacuity: the accessors at both range ends (the millisecond count is ±(2⁶³−1), the micro- and
+nanosecond counts do not fit `i64`), `is_zero` next to zero, the relations on equal and adjacent values -/
+example :
+    Delta.MAX.num_milliseconds = .ok 9223372036854775807 ∧
+    Delta.MIN.num_milliseconds = .ok (-9223372036854775807) ∧
+    Delta.MAX.num_microseconds = none ∧ Delta.MIN.num_nanoseconds = none ∧
+    Delta.MIN.num_seconds = -9223372036854775 ∧ Delta.MIN.subsec_nanos = -807000000 ∧
+    Delta.MAX.num_weeks = 15250284452 ∧ Delta.MIN.num_weeks = -15250284452 ∧
+    Delta.num_nanoseconds ⟨9223372036, 854775807⟩ = some 9223372036854775807 ∧
+    Delta.num_nanoseconds ⟨9223372036, 854775808⟩ = none ∧
+    Delta.num_nanoseconds ⟨-9223372037, 145224192⟩ = some (-9223372036854775808) ∧
+    Delta.num_nanoseconds ⟨-9223372037, 145224191⟩ = none ∧
+    Delta.is_zero ⟨0, 0⟩ = true ∧ Delta.is_zero ⟨0, 1⟩ = false ∧ Delta.is_zero ⟨-1, 999999999⟩ = false ∧
+    Delta.lt ⟨-1, 999999999⟩ ⟨0, 0⟩ = true ∧ Delta.le Delta.MIN Delta.MIN = true ∧
+    Delta.eq Delta.MAX Delta.MAX = true ∧ Delta.gt Delta.MAX Delta.MIN = true := by decide
+
+/-! ### Canonical shape of the Display text (audit gap G4) -/
+
+/-- `display_value` fixes the value the text denotes; this fixes which of the texts with that value is
+written (`Spec/DeltaCanonSpec.lean`): `P0D` exactly for zero; otherwise `-` exactly for negative values,
+`PT`, the integer part without leading zeros, a fraction of one to nine digits not ending in `0` or no
+fraction at all, `S`, and never `PT0S` / `-P0D` -/
+theorem display_canonical (a : Delta) (ha : DInv a) :
+    ∃ t, Delta.display a = .ok t ∧
+      (ns a = 0 → t = [80, 48, 68]) ∧ (ns a ≠ 0 → canonText (decide (ns a < 0)) t) ∧
+      (t = [80, 48, 68] ↔ ns a = 0) ∧ (t.head? = some 45 ↔ ns a < 0) := by
+  obtain ⟨t, h1, h2, h3⟩ := DeltaCanon.display_canonical' a ha
+  refine ⟨t, h1, h2, h3, ?_, ?_⟩
+  · constructor
+    · intro ht
+      by_cases hz : ns a = 0
+      · exact hz
+      · exact absurd ht (DeltaCanon.canonText_head _ t (h3 hz)).1
+    · exact h2
+  · by_cases hz : ns a = 0
+    · rw [h2 hz]
+      constructor
+      · intro hh; cases hh
+      · intro hh; omega
+    · rw [(DeltaCanon.canonText_head _ t (h3 hz)).2, decide_eq_true_iff]
+
+/-- non-vacuity: "-PT9223372036854775.807S" and "PT0.000001S" have the canonical shape (integer
+part, fraction exhibited) -/
+example :
+    canonText true [45, 80, 84, 57, 50, 50, 51, 51, 55, 50, 48, 51, 54, 56, 53, 52, 55, 55, 53, 46, 56, 48,
+      55, 83] ∧
+    canonText false [80, 84, 48, 46, 48, 48, 48, 48, 48, 49, 83] :=
+  ⟨⟨[57, 50, 50, 51, 51, 55, 50, 48, 51, 54, 56, 53, 52, 55, 55, 53], [46, 56, 48, 55], by decide,
+      by decide, Or.inr ⟨[56, 48, 55], by decide⟩, by decide⟩,
+   ⟨[48], [46, 48, 48, 48, 48, 48, 49], by decide, by decide,
+      Or.inr ⟨[48, 48, 48, 48, 48, 49], by decide⟩, by decide⟩⟩
+
+/-- the shape predicates leave exactly one text per value (a fact about the specification alone): two
+texts of canonical shape — `P0D` or `canonText` — that the reader maps to the same value are equal -/
+theorem canonical_text_unique (t1 t2 : List Nat)
+    (h1 : t1 = [80, 48, 68] ∨ ∃ n, canonText n t1) (h2 : t2 = [80, 48, 68] ∨ ∃ n, canonText n t2)
+    (hv : readDuration t1 = readDuration t2) : t1 = t2 := by
+  have hz : readDuration [80, 48, 68] = some 0 := by decide
+  rcases h1 with rfl | ⟨n1, c1⟩ <;> rcases h2 with rfl | ⟨n2, c2⟩
+  · rfl
+  · rw [hz] at hv; exact absurd hv.symm (DeltaCanonUniq.canon_ne_zero n2 t2 c2)
+  · rw [hz] at hv; exact absurd hv (DeltaCanonUniq.canon_ne_zero n1 t1 c1)
+  · exact DeltaCanonUniq.canon_unique n1 n2 t1 t2 c1 c2 hv
+
+/-- hence the Display text is THE text of canonical shape denoting `ns a`: any text of canonical shape
+that the reader maps to `ns a` is what `Display` writes -/
+theorem display_unique (a : Delta) (ha : DInv a) (t : List Nat)
+    (hs : t = [80, 48, 68] ∨ ∃ n, canonText n t) (hv : readDuration t = some (ns a)) :
+    Delta.display a = .ok t := by
+  obtain ⟨t', hd, hz, hc, _, _⟩ := display_canonical a ha
+  obtain ⟨t'', hd', hr⟩ := display_value' a ha
+  have : t'' = t' := by rw [hd] at hd'; cases hd'; rfl
+  subst this
+  have hs' : t'' = [80, 48, 68] ∨ ∃ n, canonText n t'' := by
+    by_cases h0 : ns a = 0
+    · exact Or.inl (hz h0)
+    · exact Or.inr ⟨_, hc h0⟩
+  rw [hd, canonical_text_unique t'' t hs' hs (by rw [hr, hv])]
+
+/-- non-vacuity: texts the reader accepts with the value of a canonical text but of another shape exist
+(`PT007S` reads as 7 s, like `PT7S`), so uniqueness is a property of the shape predicates, not of the reader -/
+example : readDuration [80, 84, 48, 48, 55, 83] = readDuration [80, 84, 55, 83] ∧
+    readDuration [80, 84, 55, 83] = some 7000000000 ∧
+    readDuration [80, 84, 48, 83] = readDuration [80, 48, 68] := by decide
 
 end Chrono.Props.C06
